@@ -748,7 +748,7 @@ func encodedListVariants(op, pos string, level int, rnd *rand.Rand) []concrete {
 		put("zlib-not-gzip", b64u.EncodeToString([]byte{0x78, 0x9c, 0x03, 0x00, 0x00, 0x00, 0x00, 0x01}))
 		put("multibase-prefix", "u"+valid)
 	case "extreme-number":
-		put("gzip-of-64MB", b64u.EncodeToString(gz(make([]byte, 64<<20))))
+		put("gzip-of-16MB", b64u.EncodeToString(gz(make([]byte, 16<<20))))
 		put("gzip-bad-crc", func() string {
 			g := gz(make([]byte, 1000))
 			g[len(g)-5] ^= 0xff
